@@ -345,13 +345,13 @@ def build() -> Check:
     if rs is not None:
         try:
             got = {sc_: ev_(rs, *args_) for sc_, args_ in (("first invocation (1 record, no marker)", (1, "")), ("first invocation (1 record, marker None)", (1, None)),
-                                                         ("3 records on the first page", (3, "")), ("1 record and a marker", (1, "page-2")))}
+                                                         ("3 records on the first page", (3, "")), ("2 records on the first page", (2, "")), ("1 record and a marker", (1, "page-2")))}
             want_ = {"first invocation (1 record, no marker)": "ReplayStatus.NEW", "first invocation (1 record, marker None)": "ReplayStatus.NEW",
-                     "3 records on the first page": "ReplayStatus.REPLAY", "1 record and a marker": "ReplayStatus.REPLAY"}
+                     "3 records on the first page": "ReplayStatus.REPLAY", "2 records on the first page": "ReplayStatus.REPLAY", "1 record and a marker": "ReplayStatus.REPLAY"}
             wrong = [f"{k_}: {got[k_]}" for k_ in want_ if got[k_] != want_[k_]]
             ck.ob("R3.replay-decision-right-way-round", fn_construct(wrapper), not wrong,
                   "; ".join(wrong) + ": a first invocation that starts in REPLAY mutes its own log calls until the first operation ends; a resumed one that starts NEW "
-                  "emits every log call of code an earlier invocation already ran" if wrong else "4 smallest histories")
+                  "emits every log call of code an earlier invocation already ran" if wrong else "5 smallest histories")
         except _Und as u_:
             ck.undecided_rule(f"R3.replay-decision-right-way-round: the replay_status expression contains `{u_}`, which the evaluator does not know")
 
